@@ -73,6 +73,33 @@ impl<T> DrainAll<T> for std::collections::VecDeque<T> {
   { unimplemented!() }
 }
 
+// R17 / R9i for maps: stand-ins for `HashMap::entry(k).or_insert_with(f)` (split by rule R17 into "is the key
+// present?", the closure body as straight-line code, and `slot_`) and for a `drain()` that is consumed
+// completely.  Assumed std contract: the entry API stores the fresh value under exactly that key, leaves every
+// other key alone and returns a mutable reference to the stored value; `drain()` yields every (key, value) pair
+// exactly once (in an unspecified order) and leaves the map empty.
+pub trait MapSlot<K, V> {
+  fn slot_(&mut self, k: K, fresh: Option<V>) -> &mut V;
+}
+impl<K: Hash + Eq, V> MapSlot<K, V> for HashMap<K, V> {
+  #[verifier::external_body]
+  fn slot_(&mut self, k: K, fresh: Option<V>) -> (r: &mut V)
+    ensures
+      *r == (if old(self)@.contains_key(k) { old(self)@[k] } else { fresh->0 }),
+      final(self)@ == old(self)@.insert(k, *final(r)),
+  { unimplemented!() }
+}
+impl<K: Hash + Eq, V> DrainAll<(K, V)> for HashMap<K, V> {
+  #[verifier::external_body]
+  fn drain_all_(&mut self) -> (r: Vec<(K, V)>)
+    ensures
+      final(self)@ == Map::<K, V>::empty(),
+      forall |i: int, j: int| 0 <= i < j < r@.len() ==> (#[trigger] r@[i]).0 != (#[trigger] r@[j]).0,
+      forall |i: int| 0 <= i < r@.len() ==> old(self)@.contains_key((#[trigger] r@[i]).0) && old(self)@[r@[i].0] == r@[i].1,
+      forall |k: K| #[trigger] old(self)@.contains_key(k) ==> exists |i: int| 0 <= i < r@.len() && (#[trigger] r@[i]).0 == k,
+  { unimplemented!() }
+}
+
 // SmallVec API that `Vec` (its stand-in by R10) lacks: whether the inline storage has spilled to the heap is
 // an implementation detail — unspecified here (either answer is possible)
 pub trait SmallVecApi {
